@@ -44,20 +44,33 @@ def run_demo(crate):
     return rc, out[-3000:]
 
 
-def run_suite():
+def run_suite(crates):
+    """tests of the touched crates (and the demo crate) with the change applied: every BASELINE stable_pass test of those
+    crates must still pass; failures are re-run (timing tests of dicom-ul flake on a loaded machine)"""
     base = json.load(open("/root/.vp/BASELINE.json"))
     junit = os.path.join(TGT, "nextest", "pb", "junit.xml")
-    if os.path.exists(junit): os.remove(junit)
-    rc, out = sh("cargo nextest run --workspace --no-fail-fast --tool-config-file pb:/w/lib/nextest.toml --profile pb --test-threads 8 --offline", timeout=7200)
-    if not os.path.exists(junit):
-        return None, "no junit produced: " + out[-1500:]
-    passed, failed = set(), set()
-    for tc in ET.parse(junit).getroot().iter("testcase"):
-        tid = (tc.get("classname") or "") + "::" + (tc.get("name") or "")
-        if tc.find("failure") is not None or tc.find("error") is not None or tc.find("flakyFailure") is not None: failed.add(tid)
-        else: passed.add(tid)
-    missing = [t for t in base["stable_pass"] if t not in passed]
-    return missing, ""
+    def once(extra):
+        if os.path.exists(junit): os.remove(junit)
+        cmd = "cargo nextest run --no-fail-fast --tool-config-file pb:/w/lib/nextest.toml --profile pb --test-threads 4 --offline " + \
+            " ".join("-p " + c for c in crates) + extra
+        rc, out = sh(cmd, timeout=7200)
+        if not os.path.exists(junit):
+            return None, out[-1500:]
+        passed = set()
+        for tc in ET.parse(junit).getroot().iter("testcase"):
+            tid = (tc.get("classname") or "") + "::" + (tc.get("name") or "")
+            if tc.find("failure") is None and tc.find("error") is None and tc.find("flakyFailure") is None: passed.add(tid)
+        return passed, ""
+    passed, note = once("")
+    if passed is None:
+        return None, "no junit produced: " + note
+    want = [t for t in base["stable_pass"] if any(t.startswith(c + "::") for c in crates)]
+    missing = [t for t in want if t not in passed]
+    if missing:
+        p2, _ = once(" --retries 2")
+        if p2 is not None:
+            missing = [t for t in missing if t not in p2]
+    return missing, "%d baseline tests of %s checked" % (len(want), crates)
 
 
 def main():
@@ -95,8 +108,15 @@ def main():
         res["demo_out_mutant"] = out[-600:]
         os.remove(demo_dst)
     if not no_suite:
-        missing, note = run_suite()
+        inv = {v: k for k, v in CRATE_DIRS.items()}
+        touched = set()
+        for line in open(os.path.join(sd, "patch.diff")):
+            m = re.match(r"\+\+\+ b/([^/]+)/", line)
+            if m and m.group(1) in inv: touched.add(inv[m.group(1)])
+        if crate: touched.add(crate)
+        missing, note = run_suite(sorted(touched))
         res["steps"]["suite_still_passes"] = (missing == [])
+        res["suite_note"] = note
         res["suite_missing"] = (missing or [])[:20] if missing is not None else note
     # our check against the mutated tree
     t0 = time.time()
